@@ -429,14 +429,17 @@ def script_info(script):
     main = script.funcs.get("main")
     if main is None:
         return None
-    facs = []
-    extra = set()
+    facs_seen = []
+    uses_defaults = any(isinstance(n, ast.Attribute) and n.attr == "defaults" for n in ast.walk(main.node))
     for n in ast.walk(main.node):
-        if isinstance(n, ast.Attribute) and n.attr == "defaults":
-            d = dotted(n.value)
-            if d and d.endswith("options_factory"):
+        if isinstance(n, ast.Attribute) and n.attr.endswith("options_factory") and uses_defaults:
+            d = dotted(n)
+            if d:
                 parts = d.split(".")
-                facs.append(parts[-2] + "." + parts[-1])
+                if len(parts) >= 2 and parts[-2] + "." + parts[-1] not in facs_seen:
+                    facs_seen.append(parts[-2] + "." + parts[-1])
+    facs = facs_seen
+    extra = set()
     # literal extra keys appended to possible_options
     for n in ast.walk(main.node):
         if isinstance(n, ast.Assign) and isinstance(n.targets[0], ast.Name) and n.targets[0].id == "possible_options":
